@@ -28,6 +28,27 @@ def NamesToken (e t : Bytes) : Prop :=
 def HasToken (lines : List Bytes) (t : Bytes) : Prop :=
   ∃ line ∈ lines, ∃ es : List Bytes, es ≠ [] ∧ (∀ e ∈ es, (44 : UInt8) ∉ e) ∧ line = joinComma es ∧ ∃ e ∈ es, NamesToken e t
 
+/-- two bytes are equal up to ASCII case: identical, or one is `A–Z` and the other the same letter in `a–z` -/
+def AsciiCaseEq (c k : UInt8) : Prop :=
+  c = k ∨ (65 ≤ c.toNat ∧ c.toNat ≤ 90 ∧ k.toNat = c.toNat + 32) ∨ (65 ≤ k.toNat ∧ k.toNat ≤ 90 ∧ c.toNat = k.toNat + 32)
+
+/-- byte strings equal up to ASCII case, byte for byte -/
+def AsciiCaseEqs : Bytes → Bytes → Prop
+  | [], [] => True
+  | c :: cs, k :: ks => AsciiCaseEq c k ∧ AsciiCaseEqs cs ks
+  | _, _ => False
+
+/-- the two UTF-8 sequences Unicode simple case folding maps onto ASCII letters — U+017F (ſ) ↦ `s`,
+    U+212A (K) ↦ `k` — replaced by those letters: the part of `strings.EqualFold` that differs from
+    `ascii.EqualFold` on otherwise-ASCII input (used only to state what the seeded variant C19-m7 accepts) -/
+def foldLookalikes : Bytes → Bytes
+  | 0xc5 :: 0xbf :: rest => 115 :: foldLookalikes rest
+  | 0xe2 :: 0x84 :: 0xaa :: rest => 107 :: foldLookalikes rest
+  | c :: rest => c :: foldLookalikes rest
+  | [] => []
+
+def equalFoldUnicode (s t : Bytes) : Bool := equalFold (foldLookalikes s) (foldLookalikes t)
+
 /-- the value begins with `p`, ASCII case-insensitively -/
 def BeginsWithFold (v p : Bytes) : Prop := ∃ a rest, v = a ++ rest ∧ equalFold a p = true
 
